@@ -181,6 +181,7 @@ def run(index, tier="quick", seed=0) -> Result:
                         res.bad("MEMO-1", f"{c.name}.{f.name}:{d.split('(')[0]}", f"{f.file}:{f.lineno}",
                                 f"{c.name}.{f.name} is memoised with @{d} on a mutable shape: the cached result lags behind every later mutation")
     res.ok("MEMO-1", "no memoising decorator on shape members", nontrivial=False)
+    _composite_caches(res, index)
     res.extra["mutator_pairs"] = pairs
     res.extra["rot1_sites"] = rot_sites
     if pairs < 60:
@@ -256,3 +257,65 @@ def _status(s):
     if s == "unset":
         return "never written"
     return "stale (dirty)"
+
+
+def _composite_caches(res, index):
+    """COH-7: a composite shape (spheropolygon / spheropolyhedron) hands out its core by reference (`shape.polyhedron`), and the
+    core is mutated through its own interface (`shape.polyhedron.centroid = ...`, `.diagonalize_inertia()`): no method of the
+    composite runs then, so a value the composite caches (a lazily filled attribute, a cached_property) that was computed from
+    the core's state cannot be invalidated - it is stale after the first mutation of the core."""
+    from ..interp import Interp
+    n = 0
+    for cls in index.shape_classes():
+        comp_attrs = set()
+        exposed = {}
+        for name, p in cls.props.items():
+            if name.startswith("_") or p.getter is None:
+                continue
+            try:
+                v = Interp(index).run_entry(p.getter, cls)["result"]
+            except RecursionError:
+                continue
+            if v is not None and v.kind == "obj" and v.obj is not None and v.obj.cls is not None and v.obj.cls.is_subclass_of("Shape"):
+                for (o_, a_) in v.al:
+                    if o_ == "self":
+                        comp_attrs.add(a_)
+                        exposed[a_] = name
+        if not comp_attrs:
+            continue
+        n += 1
+        sites = []
+        fns = list(cls.methods.values()) + [x for p in cls.props.values() for x in (p.getter, p.setter) if x]
+        for f in fns:
+            for nd in ast.walk(f.node):
+                if isinstance(nd, ast.If) and isinstance(nd.test, ast.Compare) and len(nd.test.ops) == 1 and isinstance(nd.test.ops[0], ast.Is) \
+                        and isinstance(nd.test.comparators[0], ast.Constant) and nd.test.comparators[0].value is None \
+                        and isinstance(nd.test.left, ast.Attribute) and isinstance(nd.test.left.value, ast.Name) and nd.test.left.value.id == "self":
+                    x = nd.test.left.attr
+                    if x in comp_attrs:
+                        continue
+                    if any(isinstance(m_, ast.Assign) and any(isinstance(t_, ast.Attribute) and t_.attr == x for t_ in m_.targets)
+                           for b_ in nd.body for m_ in ast.walk(b_)):
+                        sites.append((x, f, "lazily filled attribute"))
+        for name, p in cls.props.items():
+            if p.cached and p.getter is not None:
+                sites.append((name, p.getter, "cached_property"))
+        bad = False
+        for (x, f, what) in sites:
+            try:
+                r = Interp(index).run_entry(f, cls)
+            except RecursionError:
+                continue
+            reads = sorted({(e.loc[0][len("self."):], e.loc[1]) for e in r["events"] if e.type == "read" and isinstance(e.loc[0], str)
+                            and e.loc[0].startswith("self.") and e.loc[0][len("self."):] in comp_attrs})
+            if reads:
+                bad = True
+                comp = reads[0][0]
+                res.bad("COH-7", f"{cls.name}.{x}:core-state", f"{f.file}:{f.lineno}", f"{cls.name} keeps `{x}` ({what}, filled in {f.name}) computed from the state "
+                        f"of its core ({', '.join(sorted({a for (_c, a) in reads}))[:80]}), and hands the core out by reference through `.{exposed[comp]}`: a mutation made "
+                        f"through the core's own interface (`shape.{exposed[comp]}.centroid = ...`) runs no method of {cls.name}, so `{x}` cannot be invalidated and "
+                        "the next query answers for the old position")
+        if not bad:
+            res.ok("COH-7", cls.name, sample={"composite": cls.name, "exposed_core": sorted(exposed.values()), "caching_sites": len(sites)}, nontrivial=bool(sites))
+    if n < 2:
+        raise AnalysisError(f"COH-7: only {n} composite shape classes found (2 confirmed: ConvexSpheropolygon, ConvexSpheropolyhedron)")
